@@ -37,6 +37,11 @@ func RunWorker(prop string, seed uint64, worker, cases int, scratch, out string,
 		os.Remove(jpath)
 		return res.WriteFile(out)
 	}
+	if prop == "C16" {
+		runResizeREST(res, r, scratch, j, worker, cases)
+		os.Remove(jpath)
+		return res.WriteFile(out)
+	}
 	nworkers := 16
 	fmt.Sscanf(extra["workers"], "%d", &nworkers)
 	full := extra["tier"] == "thorough"
